@@ -224,6 +224,21 @@ func (r *R) Gen(ctx sdk.Context, g *hx.Rng) string {
 				ms = append(ms, r.genMsg(g))
 			}
 		}
+		if g.Chance(1, 12) {
+			// large twins: records of one creator in one transaction whose encodings agree on their first kilobyte
+			// or two (a long first content) and differ only behind it, or not at all — ids are hashes of the WHOLE
+			// record plus the counter, whatever its size
+			who := hx.AccName(g.Intn(nAcc))
+			long := hexs("d1") + "~" + hexs("sha256") + "~" + hexs("ipfs://a") + "~" + hexs(strings.Repeat("m", []int{1000, 1024, 1100, 2100, 4200}[g.Intn(5)]))
+			ms = nil
+			for i := 0; i < 2+g.Intn(2); i++ {
+				tail := genContent(g)
+				if g.Chance(1, 3) {
+					tail = hexs("d0") + "~" + hexs("md5") + "~~"
+				}
+				ms = append(ms, who+":"+long+","+tail)
+			}
+		}
 		if g.Chance(1, 8) {
 			// the transaction executed on a context that is thrown away (a simulation, a CheckTx, a node one block
 			// behind): nothing it does may be visible afterwards. The generator then reads the id it would get and
